@@ -737,14 +737,18 @@ impl FixtureDatabase {
                 // Found the pattern — check if cursor is inside the unclosed call
                 // Count parens from the usefixtures( position to the cursor
                 let mut depth: i32 = 0;
+                // The call ends at the paren that brings the count back to zero; what follows it
+                // (e.g. the `(` of the `def` line below a closed decorator) is not part of it.
+                let mut closed = false;
 
                 // Count from the opening paren on this line
                 for ch in line[pos..].chars() {
-                    if ch == '(' {
+                    if ch == '(' && !closed {
                         depth += 1;
                     }
-                    if ch == ')' {
+                    if ch == ')' && !closed {
                         depth -= 1;
+                        closed = depth == 0;
                     }
                 }
 
@@ -753,11 +757,12 @@ impl FixtureDatabase {
                 if i < cursor_idx {
                     for line in &lines[(i + 1)..=cursor_idx] {
                         for ch in line.chars() {
-                            if ch == '(' {
+                            if ch == '(' && !closed {
                                 depth += 1;
                             }
-                            if ch == ')' {
+                            if ch == ')' && !closed {
                                 depth -= 1;
+                                closed = depth == 0;
                             }
                         }
                     }
